@@ -723,6 +723,25 @@ func (e *Exec) renderArg(verb byte, arg Value) Slice {
 			}
 			return litString("?")
 		}
+		if verb == 'c' {
+			// the character with that code point, UTF-8 encoded
+			if v.K {
+				return litString(string(rune(v.V)))
+			}
+			if v.W == 8 {
+				strT := types.Typ[types.String]
+				if e.Branch(sym.Ult(v, sym.Const(8, 0x80))) {
+					st := e.newStore(strT, i64(1))
+					*st.cell(0) = v
+					return Slice{St: st, Off: i64zero, Len: i64(1), Cap: i64(1)}
+				}
+				st := e.newStore(strT, i64(2))
+				*st.cell(0) = sym.BvOr(sym.Const(8, 0xC0), sym.Lshr(v, sym.Const(8, 6)))
+				*st.cell(1) = sym.BvOr(sym.Const(8, 0x80), sym.BvAnd(v, sym.Const(8, 0x3F)))
+				return Slice{St: st, Off: i64zero, Len: i64(2), Cap: i64(2)}
+			}
+			return litString("?")
+		}
 		if v.K && (verb == 'd' || verb == 'v') {
 			_, signed, _ := width(itf.T)
 			if signed {
